@@ -56,7 +56,7 @@ type BArr struct {
 type Slice struct {
 	base          Ptr // location of a Vec or BArr; nil obj = nil slice
 	off, len, cap *Term
-	max           int // concrete upper bound on cap (unrolling bound)
+	max           int   // concrete upper bound on cap (unrolling bound)
 	minrep        *Term // when set: the bytes are the minimal big-endian form of this 256-bit value
 }
 
